@@ -2,7 +2,7 @@
 """Regenerates MANIFEST.json from props.json (claimed checks) and the property list."""
 import json, os
 ROOT = os.path.dirname(os.path.abspath(__file__))
-props = json.load(open(os.path.join(ROOT, "props.json")))
+props = {f[:-5]: json.load(open(os.path.join(ROOT, "props", f))) for f in sorted(os.listdir(os.path.join(ROOT, "props"))) if f.endswith(".json")}
 ids = [json.loads(l)["id"] for l in open(os.path.join(ROOT, "properties.jsonl"))]
 hooks_commits = [l.strip() for l in open(os.path.join(ROOT, "hooks.commits"))] if os.path.exists(os.path.join(ROOT, "hooks.commits")) else []
 m = {
